@@ -12,11 +12,13 @@ named assumption lifting them from paths to hashes (`claimHash_injective_of_coll
 
 For every claim type, for *all* field values (unbounded numbers, strings, lists):
 
-    valid k c₁ → valid k c₂ → path c₁ = path c₂ → effect c₁ = effect c₂
+    valid k₁ c₁ → valid k₂ c₂ → path c₁ = path c₂ → effect c₁ = effect c₂
 
 * `valid k` = the character classes `ValidateBasic` enforces (a superset of them: checksums are not modelled) for a
-  chain whose external addresses are of class `k` (0x-hex 42 chars / base58 34 chars).  Both claims are validated for
-  the same chain: they sit in the same per-chain attestation store.
+  chain whose external addresses are of class `k` (0x-hex 42 chars / base58 34 chars).  The two claims may have been
+  validated for chains of *different* address classes (`k₁ ≠ k₂`): `MsgClaim` routes by the wrapper's `chain_name` and
+  validates the inner claim by the claim's own `ChainName`, and nothing compares the two, so a claim checked by Tron's
+  rules can be filed in an EVM chain's attestation store.  The theorems hold regardless.
 * `effect` = every field of the event except `BridgerAddress` (who relays — differs per voter by construction) and
   `ChainName` (routing).  Which fields the handlers read (x/crosschain/keeper):
   - `SendToFxExecuted`: TokenContract, Amount, Receiver, TargetIbc, EventNonce (Sender only hashed/telemetry);
@@ -59,8 +61,8 @@ theorem hash_is_sha256_of_path :
 /-! ## the six injectivity theorems -/
 
 /-- `MsgSendToFxClaim`: `%d/%d%s/%s/%s/%s/%s` -/
-theorem sendToFx_path_injective (k : AddrKind) (c₁ c₂ : MsgSendToFxClaim)
-    (v₁ : c₁.valid k = true) (v₂ : c₂.valid k = true) (h : c₁.path = c₂.path) : c₁.effect = c₂.effect := by
+theorem sendToFx_path_injective (k₁ k₂ : AddrKind) (c₁ c₂ : MsgSendToFxClaim)
+    (v₁ : c₁.valid k₁ = true) (v₂ : c₂.valid k₂ = true) (h : c₁.path = c₂.path) : c₁.effect = c₂.effect := by
   simp only [MsgSendToFxClaim.valid, Bool.and_eq_true] at v₁ v₂
   obtain ⟨⟨⟨⟨⟨⟨⟨_, s₁⟩, t₁⟩, r₁⟩, a₁⟩, _⟩, _⟩, _⟩ := v₁
   obtain ⟨⟨⟨⟨⟨⟨⟨_, s₂⟩, t₂⟩, r₂⟩, a₂⟩, _⟩, _⟩, _⟩ := v₂
@@ -78,8 +80,8 @@ theorem sendToFx_path_injective (k : AddrKind) (c₁ c₂ : MsgSendToFxClaim)
   simp_all [MsgSendToFxClaim.effect]
 
 /-- `MsgBridgeCallClaim`: `%d/%d/%s/%s/%s/%s/%v/%v/%s/%s/%s` (with TxOrigin and Memo) -/
-theorem bridgeCall_path_injective (k : AddrKind) (c₁ c₂ : MsgBridgeCallClaim)
-    (v₁ : c₁.valid k = true) (v₂ : c₂.valid k = true) (h : c₁.path = c₂.path) : c₁.effect = c₂.effect := by
+theorem bridgeCall_path_injective (k₁ k₂ : AddrKind) (c₁ c₂ : MsgBridgeCallClaim)
+    (v₁ : c₁.valid k₁ = true) (v₂ : c₂.valid k₂ = true) (h : c₁.path = c₂.path) : c₁.effect = c₂.effect := by
   simp only [MsgBridgeCallClaim.valid, Bool.and_eq_true] at v₁ v₂
   obtain ⟨⟨⟨⟨⟨⟨⟨⟨⟨⟨⟨_, tc₁⟩, _⟩, s₁⟩, to₁⟩, rf₁⟩, _⟩, d₁⟩, _⟩, _⟩, o₁⟩, _⟩ := v₁
   obtain ⟨⟨⟨⟨⟨⟨⟨⟨⟨⟨⟨_, tc₂⟩, _⟩, s₂⟩, to₂⟩, rf₂⟩, _⟩, d₂⟩, _⟩, _⟩, o₂⟩, _⟩ := v₂
@@ -104,8 +106,8 @@ theorem bridgeCall_path_injective (k : AddrKind) (c₁ c₂ : MsgBridgeCallClaim
   simp_all [MsgBridgeCallClaim.effect]
 
 /-- `MsgBridgeCallResultClaim`: `%d/%d/%d/%t/%s/%s` (with TxOrigin) -/
-theorem bridgeCallResult_path_injective (k : AddrKind) (c₁ c₂ : MsgBridgeCallResultClaim)
-    (v₁ : c₁.valid k = true) (v₂ : c₂.valid k = true) (h : c₁.path = c₂.path) : c₁.effect = c₂.effect := by
+theorem bridgeCallResult_path_injective (k₁ k₂ : AddrKind) (c₁ c₂ : MsgBridgeCallResultClaim)
+    (v₁ : c₁.valid k₁ = true) (v₂ : c₂.valid k₂ = true) (h : c₁.path = c₂.path) : c₁.effect = c₂.effect := by
   simp only [MsgBridgeCallResultClaim.valid, Bool.and_eq_true] at v₁ v₂
   obtain ⟨⟨⟨⟨⟨_, _⟩, _⟩, _⟩, _⟩, ca₁⟩ := v₁
   obtain ⟨⟨⟨⟨⟨_, _⟩, _⟩, _⟩, _⟩, ca₂⟩ := v₂
@@ -123,8 +125,8 @@ theorem bridgeCallResult_path_injective (k : AddrKind) (c₁ c₂ : MsgBridgeCal
   simp_all [MsgBridgeCallResultClaim.effect]
 
 /-- `MsgSendToExternalClaim`: `%d/%d/%s/%d/` -/
-theorem sendToExternal_path_injective (k : AddrKind) (c₁ c₂ : MsgSendToExternalClaim)
-    (v₁ : c₁.valid k = true) (v₂ : c₂.valid k = true) (h : c₁.path = c₂.path) : c₁.effect = c₂.effect := by
+theorem sendToExternal_path_injective (k₁ k₂ : AddrKind) (c₁ c₂ : MsgSendToExternalClaim)
+    (v₁ : c₁.valid k₁ = true) (v₂ : c₂.valid k₂ = true) (h : c₁.path = c₂.path) : c₁.effect = c₂.effect := by
   simp only [MsgSendToExternalClaim.valid, Bool.and_eq_true] at v₁ v₂
   obtain ⟨⟨⟨⟨_, t₁⟩, _⟩, _⟩, _⟩ := v₁
   obtain ⟨⟨⟨⟨_, t₂⟩, _⟩, _⟩, _⟩ := v₂
@@ -140,8 +142,8 @@ theorem sendToExternal_path_injective (k : AddrKind) (c₁ c₂ : MsgSendToExter
   simp_all [MsgSendToExternalClaim.effect]
 
 /-- `MsgBridgeTokenClaim`: `%d/%d%s/%x/%x/%d/%s/` (free-form Name and Symbol hex-encoded) -/
-theorem bridgeToken_path_injective (k : AddrKind) (c₁ c₂ : MsgBridgeTokenClaim)
-    (v₁ : c₁.valid k = true) (v₂ : c₂.valid k = true) (h : c₁.path = c₂.path) : c₁.effect = c₂.effect := by
+theorem bridgeToken_path_injective (k₁ k₂ : AddrKind) (c₁ c₂ : MsgBridgeTokenClaim)
+    (v₁ : c₁.valid k₁ = true) (v₂ : c₂.valid k₂ = true) (h : c₁.path = c₂.path) : c₁.effect = c₂.effect := by
   simp only [MsgBridgeTokenClaim.valid, Bool.and_eq_true] at v₁ v₂
   obtain ⟨⟨⟨⟨⟨⟨⟨⟨_, t₁⟩, ch₁⟩, _⟩, _⟩, _⟩, _⟩, n₁⟩, sy₁⟩ := v₁
   obtain ⟨⟨⟨⟨⟨⟨⟨⟨_, t₂⟩, ch₂⟩, _⟩, _⟩, _⟩, _⟩, n₂⟩, sy₂⟩ := v₂
@@ -161,8 +163,8 @@ theorem bridgeToken_path_injective (k : AddrKind) (c₁ c₂ : MsgBridgeTokenCla
   simp_all [MsgBridgeTokenClaim.effect]
 
 /-- `MsgOracleSetUpdatedClaim`: `%d/%d/%d/%v/` -/
-theorem oracleSetUpdated_path_injective (k : AddrKind) (c₁ c₂ : MsgOracleSetUpdatedClaim)
-    (v₁ : c₁.valid k = true) (v₂ : c₂.valid k = true) (h : c₁.path = c₂.path) : c₁.effect = c₂.effect := by
+theorem oracleSetUpdated_path_injective (k₁ k₂ : AddrKind) (c₁ c₂ : MsgOracleSetUpdatedClaim)
+    (v₁ : c₁.valid k₁ = true) (v₂ : c₂.valid k₂ = true) (h : c₁.path = c₂.path) : c₁.effect = c₂.effect := by
   simp only [MsgOracleSetUpdatedClaim.valid, Bool.and_eq_true] at v₁ v₂
   obtain ⟨⟨⟨⟨_, _⟩, m₁⟩, _⟩, _⟩ := v₁
   obtain ⟨⟨⟨⟨_, _⟩, m₂⟩, _⟩, _⟩ := v₂
@@ -187,41 +189,41 @@ equal paths, and the executed claim (whichever voter crosses the threshold) carr
 
 /-- `executed_is_voted`, stated for an arbitrary hash function `H` (SHA-256 in the code): if `H` does not collide on
 the paths of the two claims, a vote `c₁` filed in the same attestation as the executed claim `c₂` has the same effect -/
-theorem executed_is_voted_sendToFx (H : Str → List Nat) (k : AddrKind) (voted executed : MsgSendToFxClaim)
-    (v₁ : voted.valid k = true) (v₂ : executed.valid k = true)
+theorem executed_is_voted_sendToFx (H : Str → List Nat) (k₁ k₂ : AddrKind) (voted executed : MsgSendToFxClaim)
+    (v₁ : voted.valid k₁ = true) (v₂ : executed.valid k₂ = true)
     (collisionFree : H voted.path = H executed.path → voted.path = executed.path)
     (sameAttestation : H voted.path = H executed.path) : voted.effect = executed.effect :=
-  sendToFx_path_injective k _ _ v₁ v₂ (collisionFree sameAttestation)
+  sendToFx_path_injective k₁ k₂ _ _ v₁ v₂ (collisionFree sameAttestation)
 
-theorem executed_is_voted_bridgeCall (H : Str → List Nat) (k : AddrKind) (voted executed : MsgBridgeCallClaim)
-    (v₁ : voted.valid k = true) (v₂ : executed.valid k = true)
+theorem executed_is_voted_bridgeCall (H : Str → List Nat) (k₁ k₂ : AddrKind) (voted executed : MsgBridgeCallClaim)
+    (v₁ : voted.valid k₁ = true) (v₂ : executed.valid k₂ = true)
     (collisionFree : H voted.path = H executed.path → voted.path = executed.path)
     (sameAttestation : H voted.path = H executed.path) : voted.effect = executed.effect :=
-  bridgeCall_path_injective k _ _ v₁ v₂ (collisionFree sameAttestation)
+  bridgeCall_path_injective k₁ k₂ _ _ v₁ v₂ (collisionFree sameAttestation)
 
-theorem executed_is_voted_bridgeCallResult (H : Str → List Nat) (k : AddrKind) (voted executed : MsgBridgeCallResultClaim)
-    (v₁ : voted.valid k = true) (v₂ : executed.valid k = true)
+theorem executed_is_voted_bridgeCallResult (H : Str → List Nat) (k₁ k₂ : AddrKind) (voted executed : MsgBridgeCallResultClaim)
+    (v₁ : voted.valid k₁ = true) (v₂ : executed.valid k₂ = true)
     (collisionFree : H voted.path = H executed.path → voted.path = executed.path)
     (sameAttestation : H voted.path = H executed.path) : voted.effect = executed.effect :=
-  bridgeCallResult_path_injective k _ _ v₁ v₂ (collisionFree sameAttestation)
+  bridgeCallResult_path_injective k₁ k₂ _ _ v₁ v₂ (collisionFree sameAttestation)
 
-theorem executed_is_voted_sendToExternal (H : Str → List Nat) (k : AddrKind) (voted executed : MsgSendToExternalClaim)
-    (v₁ : voted.valid k = true) (v₂ : executed.valid k = true)
+theorem executed_is_voted_sendToExternal (H : Str → List Nat) (k₁ k₂ : AddrKind) (voted executed : MsgSendToExternalClaim)
+    (v₁ : voted.valid k₁ = true) (v₂ : executed.valid k₂ = true)
     (collisionFree : H voted.path = H executed.path → voted.path = executed.path)
     (sameAttestation : H voted.path = H executed.path) : voted.effect = executed.effect :=
-  sendToExternal_path_injective k _ _ v₁ v₂ (collisionFree sameAttestation)
+  sendToExternal_path_injective k₁ k₂ _ _ v₁ v₂ (collisionFree sameAttestation)
 
-theorem executed_is_voted_bridgeToken (H : Str → List Nat) (k : AddrKind) (voted executed : MsgBridgeTokenClaim)
-    (v₁ : voted.valid k = true) (v₂ : executed.valid k = true)
+theorem executed_is_voted_bridgeToken (H : Str → List Nat) (k₁ k₂ : AddrKind) (voted executed : MsgBridgeTokenClaim)
+    (v₁ : voted.valid k₁ = true) (v₂ : executed.valid k₂ = true)
     (collisionFree : H voted.path = H executed.path → voted.path = executed.path)
     (sameAttestation : H voted.path = H executed.path) : voted.effect = executed.effect :=
-  bridgeToken_path_injective k _ _ v₁ v₂ (collisionFree sameAttestation)
+  bridgeToken_path_injective k₁ k₂ _ _ v₁ v₂ (collisionFree sameAttestation)
 
-theorem executed_is_voted_oracleSetUpdated (H : Str → List Nat) (k : AddrKind) (voted executed : MsgOracleSetUpdatedClaim)
-    (v₁ : voted.valid k = true) (v₂ : executed.valid k = true)
+theorem executed_is_voted_oracleSetUpdated (H : Str → List Nat) (k₁ k₂ : AddrKind) (voted executed : MsgOracleSetUpdatedClaim)
+    (v₁ : voted.valid k₁ = true) (v₂ : executed.valid k₂ = true)
     (collisionFree : H voted.path = H executed.path → voted.path = executed.path)
     (sameAttestation : H voted.path = H executed.path) : voted.effect = executed.effect :=
-  oracleSetUpdated_path_injective k _ _ v₁ v₂ (collisionFree sameAttestation)
+  oracleSetUpdated_path_injective k₁ k₂ _ _ v₁ v₂ (collisionFree sameAttestation)
 
 /-! ## the three formats of commit 6774338 are not injective (recorded counterexamples, replayed by the harness) -/
 
